@@ -534,6 +534,30 @@ def struct_value(typ, k):
     return v
 
 
+def overlong(typ, v):
+    """The structure value `v` with every array member (at any depth, BOOL arrays excepted: their length is checked) one element
+    too long; the extra element is cut off, the rest is written as given.  None when the type has no such member."""
+    if not isinstance(typ, TypeDef) or typ.string_capacity is not None or not isinstance(v, dict):
+        return None
+    out, changed = dict(v), False
+    for m in typ.visible:
+        if m.is_bit or m.name not in v:
+            continue
+        if m.dim and m.typ != "DWORD":
+            elems = []
+            for e in v[m.name]:
+                oe = overlong(m.typ, e)
+                changed = changed or oe is not None
+                elems.append(e if oe is None else oe)
+            out[m.name] = elems + [elems[0]]
+            changed = True
+        elif not m.dim:
+            oe = overlong(m.typ, v[m.name])
+            if oe is not None:
+                out[m.name], changed = oe, True
+    return out if changed else None
+
+
 def elem_value(typ, k):
     vals = boundary_values(typ)
     if isinstance(typ, TypeDef) and typ.string_capacity is not None:
